@@ -73,16 +73,12 @@ theorem reject_reports_charge (c : Cache) (su : Nat → Nat → Bool) (est : Nat
   simp [Cache.handleItem, hrej, hnov]
 
 /-- **callback_cost_is_charge (expiry)**: an entry reclaimed by the sweep is handed to `on_evict`
-with the cost the policy charged for it at that moment -/
-theorem sweep_reports_charge (c : Cache) (now k cf : Nat) (t : Time) (e : Entry)
-    (hx : c.store.expiration k = some t) (hdue : (!t.isZero && t.isExpired now) = true)
-    (hrm : c.store.tryRemove k cf = ((c.store.tryRemove k cf).1, some e)) :
-    (c.sweepKeys now [(k, cf)] []).2 = [CB.evict k e.conflict e.val (policyCost c.lfu k)] := by
-  simp only [Cache.sweepKeys, hx, hdue, if_true]
-  cases hr : policyRemove c.lfu k with
-  | mk l' evs =>
-    simp only [Cache.met_store]
-    rw [hrm]
+with its value and the cost the policy charged for it at that moment -/
+theorem sweep_reports_charge (c : Cache) (now k cf : Nat) (cb : CB)
+    (h : (c.sweepOne now k cf).2 = some cb) :
+    ∃ e, c.store.items.get k = some e ∧ cb = CB.evict k e.conflict e.val (policyCost c.lfu k) := by
+  obtain ⟨e, he, _, _, hcb⟩ := (Cache.sweepOne_removed_iff c now k cf cb).mp h
+  exact ⟨e, he, hcb⟩
 
 -- non-vacuity -------------------------------------------------------------------------------
 def exCfg : Cfg := { itemSize := 56, ignoreInternal := false, bufCap := 4, ringCap := 2, pqCap := some 3, metricsOn := false }
